@@ -4,7 +4,7 @@
     DROP TABLE / ALTER TABLE ADD FOREIGN KEY executors with their FOREIGN KEY handling). *)
 From Coq Require Import List ZArith Bool Arith.
 From VibeSQL Require Import Store.Fk Store.FkLaws Store.FkDeleteLaws Store.FkStepLaws Store.FkUpdateLaws
-  Store.FkTheorems Store.FkTermination Store.FkWitness Store.FkActionLaws Store.FkExamples.
+  Store.FkTheorems Store.FkTermination Store.FkWitness Store.FkActionLaws Store.FkCascadeLaws Store.FkDepthLaws Store.FkExamples.
 Import ListNotations.
 
 (* ---------------------------------------------------------------------------------------- *)
@@ -70,6 +70,17 @@ Theorem C12_delete_good : forall fuel ord d t wh d' ev r,
   inv d -> ord_ok ord d -> exec_delete fuel ord d t wh = ((d', ev), r) -> ev = [] -> good d d'.
 Proof. exact exec_delete_good. Qed.
 Print Assumptions C12_delete_good.
+
+(** CASCADE deletes nothing but the referencing rows, transitively: every row of any table that an
+    accepted DELETE outside the known classes removed was selected by the WHERE clause or referenced
+    an already doomed row through an ON DELETE CASCADE key (judged on the database BEFORE the
+    statement); every other row is still there with its primary key, its cells kept or set to NULL.
+    (dshrink D d d' pairs the tables of d and d' and the rows of each: dropped rows satisfy D.) *)
+Theorem C12_delete_drops_only_doomed : forall fuel ord d t wh d' ev r,
+  inv d -> ord_ok ord d -> exec_delete fuel ord d t wh = ((d', ev), r) -> ev = [] ->
+  dshrink (fun x row => doomed d t (selected_rows d t wh) (t_name x) row) d d'.
+Proof. exact delete_drops_only_doomed. Qed.
+Print Assumptions C12_delete_drops_only_doomed.
 
 (** [good] transitions keep RI *)
 Theorem C12_good_keeps_ri : forall d d' : db, inv d -> RI d -> good d d' -> RI d'.
@@ -143,6 +154,23 @@ Theorem C12_delete_terminates_by_rank : forall rk fuel ord d t wh,
   rank_ok rk d -> rk t < fuel -> snd (exec_delete fuel ord d t wh) <> RCrash.
 Proof. exact delete_terminates_by_rank. Qed.
 Print Assumptions C12_delete_terminates_by_rank.
+
+(** measure from the ROWS: the chains of ON DELETE CASCADE references below the deleted row.  A chain
+    without repetition visits every (table, key) at most once, so the default fuel (rows + 2) is
+    never exhausted unless a cycle of CASCADE references between rows is reachable from a selected
+    row (nsd: no ON DELETE SET DEFAULT with a non-NULL default, which could create references) *)
+Theorem C12_check_terminates_by_depth : forall ord fuel p prow w,
+  inv (fst w) -> nsd (fst w) -> levelok fuel (fst w) p prow -> never_crashes (check fuel ord p prow w).
+Proof. exact check_terminates_by_depth. Qed.
+Print Assumptions C12_check_terminates_by_depth.
+
+Theorem C12_delete_terminates_without_cycle : forall ord d t wh,
+  inv d -> nsd d ->
+  (forall tb pk r, get_table d t = Some tb -> t_pk tb = Some pk -> In r (t_rows tb) -> selects wh r = true ->
+     no_cascade_cycle_from d (t, proj pk r)) ->
+  step_res ord d (SDelete t wh) <> RCrash.
+Proof. exact delete_terminates_without_cycle. Qed.
+Print Assumptions C12_delete_terminates_without_cycle.
 
 (** without a rank (self-referencing table) termination depends on the rows: on a row that
     references itself through ON DELETE CASCADE the recursion never ends, with any fuel
